@@ -1,0 +1,28 @@
+//go:build verif
+
+package state
+
+// Contracts for the verif build tag (comment-only; see /verif/DESIGN.md).
+// C05: the stored form of a NEP-17 balance. An item is valid when it is empty (balance 0) or
+// the 4-byte struct header followed by a little-endian two's-complement integer; decBal is
+// the number it spells. The two codec functions are assumed to agree with this (they copy
+// math/big values by value, which the verifier's ghost value of a big.Int does not follow).
+
+//@ prop C05
+//@ import big math/big
+//@ import bigint github.com/nspcc-dev/neo-go/pkg/encoding/bigint
+
+//@ spec validBal(b seq) bool = len(b) == 0 || (len(b) >= 4 && b[0] == 0x41 && b[1] == 1 && b[2] == 0x21 && b[3] == len(b) - 4)
+//@ spec decBal(b seq) int = ite(len(b) == 0, 0, bigint.le2c(sub(b, 4, len(b))))
+
+//@ func NEP17BalanceFromBytes
+//@ assumed
+//@ pure
+//@ ensures (result1 == nil) == validBal(b)
+//@ ensures result1 == nil ==> result0 != nil && fresh(result0) && (&result0.Balance).v == decBal(b)
+
+//@ func (*NEP17Balance).Bytes
+//@ assumed
+//@ pure
+//@ requires s != nil
+//@ ensures result != nil && fresh(result) && validBal(result) && decBal(result) == (&s.Balance).v
